@@ -116,6 +116,17 @@ func c02Exec(op string) string {
 	}
 	o.apply()
 	mxj.XMLEscapeChars(escEnc)
+	if strings.Contains(op, " ;both ") {
+		// both switches requested, encoder first: documented outcome = decoder-side escaping on,
+		// encoder-side escaping off (what the model is told)
+		mxj.XMLEscapeCharsDecoder(false)
+		mxj.XMLEscapeChars(true)
+		if strings.Contains(op, " ;both 1") {
+			mxj.XMLEscapeCharsDecoder(true)
+		} else {
+			mxj.XMLEscapeCharsDecoder() // the toggling form
+		}
+	}
 	if goEmpty {
 		mxj.XmlGoEmptyElemSyntax()
 	}
@@ -231,7 +242,19 @@ func c02Gen(r *Rng, n int) []string {
 		toks, fin := tokensOf([]byte(doc), false)
 		ipre := r.Pick([]string{"", "", " ", "\t"})
 		iind := r.Pick([]string{"  ", " ", "\t", "    ", ""})
-		ops = append(ops, fmt.Sprintf("xrt %s %s %s %s %d %d %s ;indent %s %s", o.enc(), strconvTable(leafTexts([]byte(doc))), toks, fin, b2i(escEnc), b2i(goEmpty), encStr(doc), encStr(ipre), encStr(iind)))
+		both := 0
+		if r.P(12) {
+			// decoder-side escaping reached through "both requested": the model sees escDec on,
+			// encoder escaping off
+			o.EscDec, escEnc = true, false
+			both = 1 + r.Intn(2)
+			toks, fin = tokensOf([]byte(doc), false)
+		}
+		line := fmt.Sprintf("xrt %s %s %s %s %d %d %s ;indent %s %s", o.enc(), strconvTable(leafTexts([]byte(doc))), toks, fin, b2i(escEnc), b2i(goEmpty), encStr(doc), encStr(ipre), encStr(iind))
+		if both > 0 {
+			line += fmt.Sprintf(" ;both %d", both)
+		}
+		ops = append(ops, line)
 	}
 	return ops
 }
